@@ -12,7 +12,10 @@ EXPLANATION = (
     "allocator, PUBREL and the receiver-side replies take the looked-up / received identifier; (3) the allocator's "
     "result depends on the set of identifiers in use: some registry of unfinished requests is read in its closure - a "
     "necessary condition, since no allocator over a finite counter can avoid a live identifier without looking at which "
-    "ones are live. Absence of collisions over concrete histories is not decided.")
+    "ones are live; all five registries must be read, keyed windows by membership of the candidate, the hold-back queue by "
+    "its requests' identifiers, and (ID-SCAN) every non-returning iteration of those loops performs the test or runs the "
+    "nested loop that does - no entry is skipped under another condition, no early break before the candidate was found. "
+    "Absence of collisions over concrete histories is not decided.")
 ASSUMPTIONS = []
 
 
@@ -132,6 +135,46 @@ def check(ctx):
                            where=where(x), function=x.func, construct="%s/membership/%s" % (x.func, "+".join(bad) or "keyed"),
                            msg="`identifier in container` is applied to %s, which holds request objects, not identifiers: the test is always "
                                "false and identifiers of requests waiting there are handed out again" % bad, nontrivial=bool(srcs))
+        # ID-SCAN: the "not in use" verdict is only reached after every entry was looked at: inside the allocator's frame every
+        # iteration of a loop over a registry (or over what a registry holds) that does not return performs the identifier test
+        # (membership of the candidate, or comparison of an entry's identifier with it) or runs the nested loop that does
+        for tr2, e2 in evs[:1]:
+            n_scan = 0
+            for lp in tr2.path.walk():
+                if lp.kind != "LOOP" or not any(fr[2] == fq for fr in lp.stack):
+                    continue
+                it = lp.a.get("iter") or ()
+                if not any(isinstance(sub, tuple) and sub[:1] in (("regtop",), ("reg",)) for sub in subterms(it)):
+                    continue
+                cand = None
+                for fr_i, fr in enumerate(lp.stack):
+                    if fr[2] == fq:
+                        break
+                for bp in lp.a["body"]:
+                    if bp.exit_kind() in ("return", "raise"):
+                        continue
+                    n_scan += 1
+                    own = list(bp.events)
+                    tested = any(x.kind == "MEMBER" for x in own) or any(x.kind == "LOOP" for x in own) or any(
+                        isinstance(c.term, tuple) and c.term[:1] == ("cmp",) and c.term[1] in ("==", "!=", "in", "not in")
+                        and any(isinstance(sub, tuple) and sub[:1] == ("attr",) and sub[-1] == "msgId" for sub in subterms(c.term))
+                        for c in bp.conds[len(lp.conds):])
+                    extra = [c for c in bp.conds[len(lp.conds):] if not (isinstance(c.term, tuple) and c.term[:1] == ("cmp",))]
+                    itregs = {sub[1] for sub in subterms(it) if isinstance(sub, tuple) and sub[:1] in (("regtop",), ("reg",))}
+                    if not tested and extra and all(c.pol is False and isinstance(c.term, tuple) and c.term[:1] == ("reg",) and c.term[1] in itregs
+                                                    and isinstance(c.term[2], tuple) and c.term[2][:1] == ("anyaddr",) for c in extra):
+                        tested = True      # the visited container itself is empty: nothing to test
+                    if bp.exit_kind() == "break":
+                        # leaving the scan early is only sound once the candidate was found
+                        tested = any(isinstance(c.term, tuple) and c.term[:1] == ("cmp",) and (
+                            (c.term[1] in ("==", "in") and c.pol is True) or (c.term[1] in ("!=", "not in") and c.pol is False))
+                            for c in bp.conds[len(lp.conds):])
+                    ctx.ob("ID-SCAN", "%s: every entry visited by the in-use scan is tested (%s:%d, exit %s)" % (short(fq), lp.file, lp.line, bp.exit_kind()),
+                           tested, where="%s:%d" % (lp.file, lp.line), function=lp.func, construct="%s/scan-skips/%s" % (lp.func, _regs_of(it)),
+                           msg="an iteration of the in-use scan over %s ends (%s) without testing the candidate identifier%s: identifiers of the "
+                               "requests skipped there are handed out again while still unfinished" % (
+                                   _regs_of(it), bp.exit_kind(), (" under the condition %s" % show(extra[0].term)[:80]) if extra else ""))
+            ctx.floor("in-use scan iterations checked", n_scan, 5)
         regs_read = set()
         for x in reads:
             if x.a.get("reg"):
@@ -149,6 +192,10 @@ def check(ctx):
                msg="the allocator reads nothing but its counter: after the 16-bit counter wraps it hands out identifiers of requests that are "
                    "still unfinished (counter at 65534 with ids 1-3 pending -> 65535, 1, 2, 3)")
     ctx.count("allocator_events", n_alloc)
+
+
+def _regs_of(it):
+    return "+".join(sorted({sub[1] for sub in subterms(it) if isinstance(sub, tuple) and sub[:1] in (("regtop",), ("reg",))})) or "?"
 
 
 def counter_interval(tr, e, fq, field):
